@@ -268,9 +268,26 @@ def manager_contract(ctx, rule='A5a'):
                    'output (directly, or through get_matrix of the same manager)', src[:120])
     fn = ctx.fn(f'{AMGR}:AssignmentManagerBase._correct_is_active')
     src = FnText(ctx, fn)
-    ok = 'is_active = corrected_vector != X_INACTIVE_VALUE' in src and \
-        'corrected_vector[corrected_vector == X_INACTIVE_VALUE] = 0' in src and \
-        src.index('is_active =') < src.index('] = 0')
+    # semantic form: the activeness that is returned is defined as `<array> != X_INACTIVE_VALUE`, and no store into
+    # that array can precede the definition (whatever way the marks are replaced afterwards: masked store, np.where)
+    from ..cfg import build_cfg
+    cfg = build_cfg(fn)
+    defs = [n for n in cfg.nodes if n.kind == 'stmt' and isinstance(n.ast, ast.Assign) and
+            isinstance(n.ast.value, ast.Compare) and len(n.ast.value.ops) == 1 and
+            isinstance(n.ast.value.ops[0], ast.NotEq) and norm(n.ast.value.comparators[0]) == 'X_INACTIVE_VALUE' and
+            isinstance(n.ast.value.left, ast.Name)]
+    rets = [n for n in cfg.nodes if n.kind == 'stmt' and isinstance(n.ast, ast.Return)]
+    ok = False
+    for d in defs:
+        arr = d.ast.value.left.id
+        act = norm(d.ast.targets[0])
+        stores = [n for n in cfg.nodes if n.kind == 'stmt' and isinstance(n.ast, (ast.Assign, ast.AugAssign)) and
+                  any(isinstance(t, ast.Subscript) and norm(t.value) == arr
+                      for t in (n.ast.targets if isinstance(n.ast, ast.Assign) else [n.ast.target]))]
+        returned = bool(rets) and all(isinstance(r.ast.value, ast.Tuple) and len(r.ast.value.elts) == 2 and
+                                      norm(r.ast.value.elts[1]) == act for r in rets)
+        if returned and not any(cfg.can_reach(s_, d) for s_ in stores):
+            ok = True
     ctx.ob(rule, fkey(fn, rule, 'marks-to-activeness'), ok, fn.where,
            'activeness is `vector != -1`, taken before the -1 marks are replaced by 0', src[:160])
     return n + 1
